@@ -108,8 +108,8 @@ class Prop(BaseProp):
         c = ctx.call(st.copy, _name="SpikeTrain.copy")
         ctx.expect(not np.shares_memory(st.spikes, c.spikes), "alias:SpikeTrain.copy", "copy shares memory with the original")
         ctx.expect(np.array_equal(c.spikes, st.spikes) and c.t_start == st.t_start and c.t_end == st.t_end, "SpikeTrain.copy-not-equal",
-                   "copy() differs from the original: %s on [%r,%r] vs %s on [%r,%r]" % (common.short(c.spikes.tolist()), c.t_start, c.t_end,
-                                                                                       common.short(st.spikes.tolist()), st.t_start, st.t_end))
+                   "copy() differs from the original: %s on [%r,%r] vs %s on [%r,%r]" % (common.short(common.tl(c.spikes)), c.t_start, c.t_end,
+                                                                                       common.short(common.tl(st.spikes)), st.t_start, st.t_end))
         x = np.array([ts, (ts + te) / 2, te])
         y = np.array([1.0, 2.0])
         for nm, mk in (("PieceWiseConstFunc", lambda: ps.PieceWiseConstFunc(x, y)), ("PieceWiseLinFunc", lambda: ps.PieceWiseLinFunc(x, y, y)),
@@ -259,7 +259,7 @@ class Prop(BaseProp):
             ctx.expect(d is None, "stale-state-after-inplace-edit:edges:" + name,
                        "%s(Reconcile=False) on trains whose edges were changed in place differs from fresh trains with the same content: %s" % (name, d))
         rr = ctx.call(reconcile_spike_trains, [h, other], _name="reconcile_spike_trains")
-        want = sorted({float(t) for t in h.spikes.tolist() if within(t, ts, te)})
+        want = sorted({float(t) for t in common.tl(h.spikes) if within(t, ts, te)})
         ctx.expect(np.asarray(rr[0].spikes, dtype=float).tolist() == want, "stale-state-after-inplace-edit:reconcile",
                    "reconcile of an edited train returns %s, its current distinct spike times are %s" % (common.short(np.asarray(rr[0].spikes).tolist()), common.short(want)))
         # ---- history on ONE list object: use it, replace an element in place, use it again at once.
